@@ -1298,7 +1298,7 @@ func (schema *Schema) visitEnumOperation(settings *schemaValidationSettings, val
 	return
 }
 
-// jsonNumbersToFloat64 returns a copy of value in which every json.Number nested in
+// jsonNumbersToFloat64 returns a copy of value in which every json.Number (and every Go integer) nested in
 // arrays and objects is replaced by its float64 value, and whether any was found.
 func jsonNumbersToFloat64(value any) (any, bool) {
 	switch x := value.(type) {
@@ -1306,6 +1306,13 @@ func jsonNumbersToFloat64(value any) (any, bool) {
 		if f, err := x.Float64(); err == nil {
 			return f, true
 		}
+	case int64:
+		// what the parameter decoders yield for integers
+		return float64(x), true
+	case int32:
+		return float64(x), true
+	case int:
+		return float64(x), true
 	case []any:
 		out, changed := make([]any, len(x)), false
 		for i, item := range x {
